@@ -429,3 +429,25 @@ def deep_sentence(draw: t.Any, depth_range: t.Tuple[int, int] = (13, 60)) -> t.D
         text = "(" + op + text + ")"
         tree = ("not", tree) if op == "!" else ("and" if op == "&" else "or", [tree])
     return {"text": text, "tree": tree, "depth": depth, "decorated": False, "stats": stats}
+
+
+@st.composite
+def very_deep_sentence(draw: t.Any, depths: t.Sequence[int] = (64, 99, 100, 101, 127, 128, 129, 200, 255, 256, 300)) -> t.Dict[str, t.Any]:
+    """Nesting far beyond what ordinary sentences reach (well inside what the default interpreter stack allows: the
+    parser needs about two frames per level); the operator pattern is short and read cyclically, some levels get a
+    sibling item before or after the nested filter."""
+    depth = draw(st.sampled_from(list(depths)))
+    ops = draw(st.lists(st.sampled_from(["&", "|", "!", "&<", "|>"]), min_size=1, max_size=6))
+    text, tree, stats = draw(item_sentence())
+    text = "(" + text + ")"
+    for i in range(depth):
+        op = ops[i % len(ops)]
+        if op == "!":
+            text, tree = "(!" + text + ")", ("not", tree)
+        elif len(op) == 1:
+            text, tree = "(" + op + text + ")", ("and" if op == "&" else "or", [tree])
+        elif op[1] == "<":
+            text, tree = "(" + op[0] + "(s=1)" + text + ")", ("and" if op[0] == "&" else "or", [("eq", "s", b"1"), tree])
+        else:
+            text, tree = "(" + op[0] + text + "(s=2))", ("and" if op[0] == "&" else "or", [tree, ("eq", "s", b"2")])
+    return {"text": text, "tree": tree, "depth": depth, "decorated": False, "stats": stats}
